@@ -348,7 +348,8 @@ def step (st : St) (line : String) : St × List String :=
   | "P" :: p :: ws => ({ st with progs := setAt st.progs (nat! p) (ws.map ofString01) [] }, [])
   | "E" :: rest =>
     let spec : EnvSpec := { vals := semiLists ((kv rest "vals").getD ""), idel := semiLists ((kv rest "idel").getD ""),
-                            odel := semiLists ((kv rest "odel").getD "") }
+                            odel := semiLists ((kv rest "odel").getD ""), ihold := semiLists ((kv rest "ihold").getD ""),
+                            orel := semiLists ((kv rest "orel").getD "") }
     ({ st with spec := some spec, clocks := nat! ((kv rest "clocks").getD "0") }, [])
   | "T" :: "err" :: _ => (st, [line])
   | "T" :: _ =>
